@@ -4,5 +4,5 @@ export GOFLAGS=-mod=mod GOPROXY=off GOSUMDB=off GOTOOLCHAIN=local GOWORK=off
 D=$(pwd)
 /opt/veriftools/go1.26.8/bin/go build -o bin/instr ./instr && /opt/veriftools/go1.26.8/bin/go build -o bin/check ./cmd/check || exit 2
 for p in "$@"; do
-  echo "=== $p thorough"; VERIF_DIR=$D ./bin/check $p --tier thorough --seed 7 2>&1 | grep -v "^KNOWN" | tail -6 | cut -c1-600
+  echo "=== $p thorough"; VERIF_DIR=$D ./bin/check $p --tier thorough --seed ${TSEED:-7} 2>&1 | grep -v "^KNOWN" | tail -6 | cut -c1-600
 done
